@@ -146,6 +146,17 @@ EDITS = {
 BUILD_FILES = ('Makefile', '.bfg_find_deps', '.bfg_find_cache', 'compile_commands.json')
 
 
+def _sort_dist_members(text):
+    out = []
+    for l in text.split('\n'):
+        if l.startswith('\t$(DOPPEL) -ipN -f '):
+            w = l.split(' ')
+            k = w.index('-P') + 2
+            l = ' '.join(w[:k] + sorted(w[k:-1]) + w[-1:])
+        out.append(l)
+    return '\n'.join(out)
+
+
 class RegenHistory(Bounded):
     """Edit sequences on a generated project (two find_files calls over different directories, a submodule, an
     options file), each followed by GNU make running the generated regeneration rule (`bfg9000 regenerate --lazy`
@@ -180,11 +191,11 @@ class RegenHistory(Bounded):
         top = tempfile.mkdtemp(prefix='pyvc_regen_')
         try:
             src, b = top + '/src', top + '/b'
-            _write(src + '/build.bfg', "project('p')\na = find_files('d1/*.txt')\nb = find_files('d2/**/*.dat')\n"
+            _write(src + '/build.bfg', "project('p')\na = find_files('d1/*.txt', extra='*.md')\nb = find_files('d2/**/*.dat')\n"
                                       "submodule('sub')\nfor f in a + b:\n    copy_file(f)\n")
             _write(src + '/options.bfg', "argument('name', default='x')\n")
             _write(src + '/sub/build.bfg', "copy_file('s.txt')\n")
-            for f in ('sub/s.txt', 'sub/t.txt', 'extra.txt', 'd1/a.txt', 'd2/x.dat', 'd2/deep/y.dat'):
+            for f in ('sub/s.txt', 'sub/t.txt', 'extra.txt', 'd1/a.txt', 'd1/notes.md', 'd2/x.dat', 'd2/deep/y.dat'):
                 _write(src + '/' + f, f)
             launcher = top + '/bin/bfg9000'
             _write(launcher, "#!/bin/sh\necho \"$@\" >> %s/calls.log\nPYTHONPATH=%s exec /venv/bin/python -c "
@@ -242,6 +253,11 @@ class RegenHistory(Bounded):
                 if k < raw.get('compare_from', 0):
                     continue
                 for n in BUILD_FILES:
+                    if n == 'Makefile' and got[n] is not None and fresh[n] is not None:
+                        # the members of a `dist` archive command are listed in registration order; after a cached
+                        # regeneration the extra= files are registered behind the found ones: same archive, so the
+                        # member list is compared as a set
+                        got[n], fresh[n] = (_sort_dist_members(x) for x in (got[n], fresh[n]))
                     if n == '.bfg_find_deps' and got[n] is not None and fresh[n] is not None:
                         # the watched directories are written in set-iteration order (varies with the hash seed
                         # even between two fresh configures: that is C13, not this property): compare as sets
